@@ -597,8 +597,8 @@ def run(ctx):
                           "statement language of coq/Model/IdPoolSrc.v, regenerated on every run as coq/Gen/Src_idpool.v "
                           "(fail-closed); C09_mark_one_is_source / C09_mark_all_is_source / C09_generate_is_source prove the "
                           "parsed programs equal to mark_one / mark_all / generate of Model/IdPool.v; the meaning the "
-                          "interpreter gives to the accepted Python shapes is trusted; "
-                          "remove_hanging_lanelet_members is tied by correspondence only (removals: c09_rm_src.py, adds: c09_add_src.py)")
+                          "interpreter gives to the accepted Python shapes is trusted; (removals: "
+                          "c09_rm_src.py, adds: c09_add_src.py, hanging members: c09_hang_src.py)")
     from props import c09_src
     try:
         changed = c09_src.generate()
@@ -612,7 +612,7 @@ def run(ctx):
                           "replace_lanelet_network into the statement language of coq/Model/IdRemoveSrc.v, regenerated on "
                           "every run as coq/Gen/Src_idremove.v (fail-closed, on the normal form of vlib/astnorm.py); "
                           "C09_removals_are_source proves the parsed methods equal to exec o of Model/IdPool.v for every "
-                          "removal operation and Replace; remove_hanging_lanelet_members stays hand-written "
+                          "removal operation and Replace (remove_hanging_lanelet_members: c09_hang_src.py) "
                           "(correspondence only); LaneletNetwork.remove_* is read as net_remove_* (C10 proves that from "
                           "lanelet.py)")
     from props import c09_rm_src
@@ -639,6 +639,20 @@ def run(ctx):
                                             "C09_every_operation_is_source / C09_source_all_reachable_inv)",
                                  "where": "harness/props/c09_add_src.py", "log": str(e)})
         ctx.log(f"proof_broken theorem=C09_add_is_source (source parser: {e})")
+    ctx.trusted.insert(6, "harness/props/c09_hang_src.py: parser of Scenario.remove_hanging_lanelet_members into the "
+                          "selection language of coq/Model/IdHangSrc.v, regenerated on every run as coq/Gen/Src_idhang.v "
+                          "(fail-closed); C09_remove_hanging_is_source / C09_remove_lanelet_fully_source prove it equal to "
+                          "remove_hanging / remove_lanelets of Model/IdPool.v; trusted: set().union(*[...]) / set "
+                          "difference / the network's element lists read as the model's list operations")
+    from props import c09_hang_src
+    try:
+        changed = c09_hang_src.generate()
+        ctx.notes.append(f"Gen/Src_idhang.v regenerated from the source ({'changed' if changed else 'unchanged'})")
+    except Exception as e:
+        ctx.proof_breaks.append({"theorem": "source parser:Gen/Src_idhang.v (C09_remove_hanging_is_source / "
+                                            "C09_remove_lanelet_fully_source)",
+                                 "where": "harness/props/c09_hang_src.py", "log": str(e)})
+        ctx.log(f"proof_broken theorem=C09_remove_hanging_is_source (source parser: {e})")
     ctx.build_props(extra_targets=["Corr/C09.vo"])
     if ctx.tier == "thorough":
         ctx.coqchk()
